@@ -28,7 +28,7 @@ cd /verif
 unset CARGO_TARGET_DIR
 res="{"
 for id in "$@"; do
-  o=$(./check $id quick 2>&1); rc=$?
+  o=$(./check $id quick 2>&1); rc=$?; echo "$o" > /tmp/mut/last_check_$id.out
   sigs=$(echo "$o" | grep -E '^  signature' | sed 's/^  signature: //' | head -6 | tr '\n' '|')
   echo "check $id: exit=$rc  $sigs"
   res="$res\"$id\": {\"exit\": $rc, \"signatures\": \"$(echo $sigs | sed 's/"/\\"/g')\"},"
